@@ -168,6 +168,8 @@ class Ctx:
   # ---- execution -------------------------------------------------------
   def run(self, sub, cases):
     """In-process execution of an iterable of cases."""
+    if getattr(self, 'only', None) and sub not in self.only:
+      return
     for case in cases:
       if self._timeouts.get(sub, 0) >= 2:
         self.caps.append({'sub': sub, 'cap': 'sub-space abandoned after 2 non-terminating executions'})
@@ -179,6 +181,8 @@ class Ctx:
 
   def pmap(self, sub, cases, workers=None, chunk=8):
     """Parallel execution in spawned worker processes (order of absorption = case order)."""
+    if getattr(self, 'only', None) and sub not in self.only:
+      return
     cases = list(cases)
     if not cases:
       return
